@@ -354,7 +354,8 @@ Op("repeat", "shape", _gen_repeat,
 
 def _gen_tile(g):
     shape = nd_shape(g, maxdim=2)
-    reps = g.rng.choice([1, 2, 3, [2], [1, 2], [2, 1], [2, 2], [1, 1, 2], [2, 1, 1], 0])
+    reps = g.rng.choice([1, 2, 3, [2], [1, 2], [2, 1], [2, 2], [1, 1, 2], [2, 1, 1], 0,
+                         [1], [1, 1], [1, 1, 1], [1, 1, 1, 1]])
     kw = {"reps": reps}
     if isinstance(reps, list) and g.rng.random() < 0.3:
         kw["seq_as_array"] = True
@@ -1242,6 +1243,19 @@ def _gen_close(g):
                 first["coefs"][0])]
             case["operands"] = [first, other] if g.rng.random() < 0.5 else [other, first]
             case["kw"] = {"rtol": 0.1, "atol": 0.0}
+    elif g.rng.random() < 0.15:
+        # large integers one or two apart: under the default tolerances rtol * |b| exceeds 1, so
+        # numpy calls them close although they differ (seed C11-r13-1: integer '==' fast path)
+        first = case["operands"][0]
+        if first["k"] == "poly" and first.get("kind") == "int" and not first.get("dtype"):
+            scale = g.rng.choice([250000, 10 ** 6, 3 * 10 ** 7])
+            first = dict(first)
+            first["coefs"] = [G.nested_map(lambda v: int(v) * 7 + scale, c) for c in first["coefs"]]
+            other = dict(first)
+            other["coefs"] = [G.nested_map(lambda v: int(v) + g.rng.choice([0, 1, -1, 2]), c)
+                              for c in first["coefs"]]
+            case["operands"] = [first, other]
+            case["kw"] = {}
     return case
 
 
